@@ -58,9 +58,12 @@ pub enum Blk {
     FeeGarbage,
     Id0,
     IdMax,
+    OrphanLowId,
+    ZeroParentLowId,
+    ZeroParentHighId,
     FetchFails,
 }
-pub const BLKS: [Blk; 17] = [
+pub const BLKS: [Blk; 20] = [
     Blk::Garbage,
     Blk::Truncated,
     Blk::HeaderOnly,
@@ -77,6 +80,9 @@ pub const BLKS: [Blk; 17] = [
     Blk::FeeGarbage,
     Blk::Id0,
     Blk::IdMax,
+    Blk::OrphanLowId,
+    Blk::ZeroParentLowId,
+    Blk::ZeroParentHighId,
     Blk::FetchFails,
 ];
 
@@ -394,7 +400,7 @@ fn hostile_block(u: &Uni, k: Blk) -> ([u8; 32], u64, Option<Vec<u8>>) {
         Blk::UnknownParent => bad(Bad::UnknownParent),
         Blk::TxSpent => bad(Bad::TxSpent),
         Blk::MerkleAppend => bad(Bad::MerkleAppend),
-        Blk::Gt96 | Blk::AtrGarbage | Blk::FeeGarbage | Blk::Id0 | Blk::IdMax => {
+        Blk::Gt96 | Blk::AtrGarbage | Blk::FeeGarbage | Blk::Id0 | Blk::IdMax | Blk::OrphanLowId | Blk::ZeroParentLowId | Blk::ZeroParentHighId => {
             let mut b = x.clone();
             b.created_hashmap_of_slips_spent_this_block = false;
             b.slips_spent_this_block.clear();
@@ -412,6 +418,20 @@ fn hostile_block(u: &Uni, k: Blk) -> ([u8; 32], u64, Option<Vec<u8>>) {
                 }
                 Blk::Id0 => b.id = 0,
                 Blk::IdMax => b.id = u64::MAX,
+                Blk::ZeroParentLowId => {
+                    // claims to be a first block (no parent) at a height below the node's tip
+                    b.id = 2;
+                    b.previous_block_hash = [0; 32];
+                }
+                Blk::ZeroParentHighId => {
+                    b.id = 9;
+                    b.previous_block_hash = [0; 32];
+                }
+                Blk::OrphanLowId => {
+                    // a parentless block that claims a height below the node's tip
+                    b.id = 2;
+                    b.previous_block_hash = [0x78; 32];
+                }
                 _ => {
                     let mut t = make_tx(&[], &[(key(3).public, 5)], &key(0), x.timestamp, b"fee");
                     t.transaction_type = TransactionType::Fee;
